@@ -281,44 +281,33 @@ theorem keys_nodup_preserved (c : Cache) (srcName : BList) (srcIdx : Nat) (inc :
       intro e; subst e
       exact Table.nodup_set _ _ _ h'
 
-/-- PTR, SRV and TXT entries: `evict_expired_services(now)` keeps of every PTR name exactly the
-    entries with `expires > now`; SRV/TXT entries are looked at only under names some cached
-    PTR points to (then likewise), all others are left as they are. -/
+/-- PTR, SRV, TXT and NSEC entries: after `evict_expired_services(now)` every name of every
+    one of the four tables keeps exactly its entries with `expires > now`, and a name left
+    without entries is gone - also SRV/TXT/NSEC records that no PTR points to (repair of D19:
+    before it such orphans were never evicted). -/
 theorem evict_services_exact (c : Cache) (now : Nat) :
-    (evictServices c now).1.ptr = c.ptr.map (fun p => (p.1, p.2.filter (live now))) ∧
-    (∀ k es', (k, es') ∈ (evictServices c now).1.srv ↔ ∃ es, (k, es) ∈ c.srv ∧
-      if (ptrAliases c.ptr).contains k then es' = es.filter (live now) ∧ es' ≠ [] else es' = es) ∧
-    (evictServices c now).1.txt =
-      c.txt.map (fun p => if (ptrAliases c.ptr).contains p.1 then (p.1, p.2.filter (live now)) else p) := by
-  refine ⟨rfl, ?_, rfl⟩
-  intro k es'
-  simp only [evictServices, evictSrv, List.mem_filterMap]
+    (evictServices c now).1.ptr = evictLive now c.ptr ∧
+    (evictServices c now).1.srv = evictLive now c.srv ∧
+    (evictServices c now).1.txt = evictLive now c.txt ∧
+    (evictServices c now).1.nsec = evictLive now c.nsec ∧
+    ∀ (t : Table) k es', (k, es') ∈ evictLive now t ↔
+      ∃ es, (k, es) ∈ t ∧ es' = es.filter (live now) ∧ es' ≠ [] := by
+  refine ⟨rfl, rfl, rfl, rfl, ?_⟩
+  intro t k es'
+  simp only [evictLive, List.mem_filterMap]
   constructor
   · rintro ⟨p, hp, he⟩
     obtain ⟨pk, pv⟩ := p
-    by_cases ha : (ptrAliases c.ptr).contains pk = true
-    · rw [if_pos ha] at he
-      by_cases hem : (pv.filter (live now)).isEmpty = true
-      · rw [if_pos hem] at he
-        cases he
-      · rw [if_neg hem] at he
-        cases he
-        refine ⟨pv, hp, ?_⟩
-        rw [if_pos ha]
-        exact ⟨rfl, by simpa using hem⟩
-    · rw [if_neg ha] at he
+    by_cases hem : (pv.filter (live now)).isEmpty = true
+    · rw [if_pos hem] at he
       cases he
-      refine ⟨es', hp, ?_⟩
-      rw [if_neg ha]
-  · rintro ⟨es, hes, h⟩
+    · rw [if_neg hem] at he
+      cases he
+      exact ⟨pv, hp, rfl, by simpa using hem⟩
+  · rintro ⟨es, hes, rfl, hne⟩
     refine ⟨(k, es), hes, ?_⟩
-    by_cases ha : (ptrAliases c.ptr).contains k = true
-    · rw [if_pos ha] at h ⊢
-      obtain ⟨rfl, hne⟩ := h
-      have : ¬ (es.filter (live now)).isEmpty = true := by simpa using hne
-      rw [if_neg this]
-    · rw [if_neg ha] at h ⊢
-      rw [h]
+    have : ¬ (es.filter (live now)).isEmpty = true := by simpa using hne
+    rw [if_neg this]
 
 /-! ### Non-vacuity -/
 
